@@ -208,11 +208,17 @@ impl Read for Src {
                 return Err(kind.into());
             }
         }
+        if self.mode == 6 && self.pos == 9 && self.intr_pending {
+            self.intr_pending = false;
+            return Err(io::ErrorKind::Interrupted.into());
+        }
         if self.mode == 3 && self.pos % 3 == 0 && self.intr_pending {
             self.intr_pending = false;
             return Err(io::ErrorKind::Interrupted.into());
         }
-        self.intr_pending = true;
+        if self.mode != 6 {
+            self.intr_pending = true;
+        }
         let rem = self.data.len() - self.pos;
         let mut n = if buf.len() < rem { buf.len() } else { rem };
         if let Some((k, _)) = self.fail {
@@ -221,7 +227,7 @@ impl Read for Src {
             }
         }
         let want = match self.mode {
-            0 => n,
+            0 | 6 => n,
             2 => 1 + (self.calls % 2),
             _ => 1,
         };
